@@ -622,11 +622,22 @@ def _make_init(cls: t.Type[PaneBase], fields: t.Sequence[Field]):
     setattr(cls, 'from_dict_unchecked', from_dict_unchecked)
 
 
+def _generic_origin(cls: type) -> type:
+    """
+    The generic class `cls` is a specialisation of, through any number of
+    (partial) re-parametrisations. `cls` itself if it is no specialisation.
+    """
+    # (looked up in the class's own namespace: subclasses of a specialisation are classes of their own)
+    while '__origin__' in cls.__dict__:
+        cls = cls.__dict__['__origin__']
+    return cls
+
+
 def _make_eq(cls: t.Type[PaneBase], fields: t.Sequence[Field]):
     #eq_fields = list(filter(lambda f: f.eq, fields))
     def __eq__(self: PaneBase, other: t.Any) -> bool:
         # check if classes are the same (modulo type variables)
-        if self.__class__.__dict__.get('__origin__', self.__class__) != other.__class__.__dict__.get('__origin__', other.__class__):
+        if _generic_origin(self.__class__) != _generic_origin(other.__class__):
             return False
         return all(
             getattr(self, field.name) == getattr(other, field.name)
